@@ -14,8 +14,8 @@ from . import env
 
 PY = sys.executable
 KNOWN = os.path.join(env.VERIF, "known_findings.json")
-EVIDENCE_DIR = os.path.join(env.VERIF, "evidence")
-REPLAY_DIR = os.path.join(env.VERIF, "replays")
+EVIDENCE_DIR = os.environ.get("RVMON_EVIDENCE_DIR") or os.path.join(env.VERIF, "evidence")  # the self-test redirects these
+REPLAY_DIR = os.environ.get("RVMON_REPLAY_DIR") or os.path.join(env.VERIF, "replays")
 
 MAX_SAMPLES = 6
 MAX_CASES_PER_KEY = 3
